@@ -30,6 +30,16 @@ var Root = func() string {
 	return d
 }()
 
+// outDir is where evidence/ and violations/ are written: the framework root, or
+// VERIF_OUT for side runs (seed evaluation against a scratch copy of the library)
+// that must not overwrite the evidence of the registered checks.
+func outDir() string {
+	if d := os.Getenv("VERIF_OUT"); d != "" {
+		return d
+	}
+	return Root
+}
+
 // Finding is one oracle failure. Key names the call site, failure kind and
 // operand class (narrow enough that a different failure has a different key).
 type Finding struct {
@@ -220,7 +230,7 @@ func (r *Run) Report(space string, input any, f Finding) {
 		"detail": f.Detail, "input": input}
 	b, _ := json.MarshalIndent(doc, "", " ")
 	sum := sha256.Sum256(b)
-	dir := filepath.Join(Root, "violations", r.ID)
+	dir := filepath.Join(outDir(), "violations", r.ID)
 	_ = os.MkdirAll(dir, 0o755)
 	p := filepath.Join(dir, hex.EncodeToString(sum[:6])+".json")
 	_ = os.WriteFile(p, b, 0o644)
@@ -276,8 +286,8 @@ func (r *Run) Finish(rule string) int {
 		ev["harness_errors"] = r.harnessErr
 	}
 	b, _ := json.MarshalIndent(ev, "", " ")
-	_ = os.MkdirAll(filepath.Join(Root, "evidence"), 0o755)
-	if err := os.WriteFile(filepath.Join(Root, "evidence", r.ID+".json"), b, 0o644); err != nil {
+	_ = os.MkdirAll(filepath.Join(outDir(), "evidence"), 0o755)
+	if err := os.WriteFile(filepath.Join(outDir(), "evidence", r.ID+".json"), b, 0o644); err != nil {
 		fmt.Println("cannot write evidence:", err)
 		return 2
 	}
